@@ -1660,3 +1660,615 @@ theorem Reach.inv {s : State} (h : Reach s) : KInv s ∧ HInv s := by
   induction h with
   | init => exact ⟨KInv.init, HInv.init⟩
   | step e _ hs ih => exact ⟨ih.1.step hs, ih.2.step ih.1 hs⟩
+
+/-! ## along disciplined histories: a freed handle has no holder; no step touches a freed handle -/
+
+def FInvH (hdl : Nat → Handle) : Prop := ∀ h, (hdl h).freed = true → (hdl h).userRefs = 0 ∧ (hdl h).threadRef = false
+def FInv (s : State) : Prop := FInvH s.hdl
+
+theorem FInvH.upd {hdl : Nat → Handle} (hf : FInvH hdl) (h0 : Nat) (x' : Handle)
+    (c : x'.freed = true → x'.userRefs = 0 ∧ x'.threadRef = false) : FInvH (upd hdl h0 x') := by
+  intro h; by_cases e : h = h0
+  · subst e; simpa using c
+  · rw [upd_ne _ _ e]; exact hf h
+
+theorem FInv.alive {s : State} (hf : FInv s) {h : Nat} (hh : 0 < (s.hdl h).userRefs ∨ (s.hdl h).threadRef = true) :
+    (s.hdl h).freed = false := by
+  cases hfr : (s.hdl h).freed with
+  | false => rfl
+  | true =>
+    have := hf h hfr
+    rcases hh with hh | hh
+    · omega
+    · rw [this.2] at hh; cases hh
+
+theorem FInv.init : FInv init := by intro h hh; simp [PV.UThread.init] at hh
+
+theorem currentCore_FInv {s : State} (hf : FInv s) (t n : Nat) : FInv (currentCore s t n).1 := by
+  unfold currentCore; split
+  · exact hf
+  · exact FInvH.upd hf _ _ (by simp)
+
+/-- the library key's destructor drops the last reference only when no user reference is left -/
+theorem FInv.libDtor {s s' : State} (hf : FInv s) (hi : HInv s) {t n : Nat} (ho : (s.nkey n).owner = 0) (hv : s.tls t n ≠ 0)
+    (hs : unrefCore (cleared s t n) (s.tls t n - 1) true = .ok s') : FInv s' := by
+  obtain ⟨_, htr, _⟩ := hi.lT t n ho hv
+  obtain ⟨hfr, ⟨hc, rfl⟩ | ⟨_, rfl⟩⟩ := unrefCore_ok hs
+  · refine FInvH.upd hf _ _ ?_
+    intro _
+    have h1 := hi.hR _ hfr
+    simp only [cleared] at hc
+    simp only [holders, htr, unrefFreesWhenOldIs] at h1 hc
+    simp [decd, cleared]; simp at h1; omega
+  · refine FInvH.upd hf _ _ ?_
+    simp only [decd, cleared] at hfr ⊢; simp [hfr]
+
+theorem FInv.dtorOne_inv {s s' : State} {t n : Nat} (hf : FInv s) (hi : HInv s) (hs : dtorOne t s n = .ok s') : FInv s' := by
+  rcases dtorOne_ok hs with ⟨_, rfl⟩ | ⟨_, _, rfl⟩ | ⟨hd, ho, hu⟩
+  · exact hf
+  · exact hf
+  · exact hf.libDtor hi ho hd.2.2 hu
+
+theorem FInv.runDtors_inv {t : Nat} : ∀ {l : List Nat} {s s' : State}, FInv s → HInv s → KInv s → (s.thr t).phase = .finished →
+    runDtors t s l = .ok s' → FInv s'
+  | [], s, s', hf, _, _, _, hs => by unfold PV.UThread.runDtors at hs; injection hs with hs; exact hs ▸ hf
+  | n :: r, s, s', hf, hi, hk, hp, hs => by
+    obtain ⟨s1, h1, h2⟩ := runDtors_cons_ok hs
+    exact FInv.runDtors_inv (hf.dtorOne_inv hi h1) (hi.dtorOne_inv hk hp h1) (hk.dtorOne h1)
+      (by rw [(dtorOne_thr h1).1]; exact hp) h2
+
+theorem FInv.step {s s' : State} {e : Ev} (hf : FInv s) (hi : HInv s) (hk : KInv s) (hp : Permitted s e)
+    (hs : step s e = .ok s') : FInv s' := by
+  cases e with
+  | spawn => have := spawn_ok hs; subst this; exact hf
+  | createBegin a j n => obtain ⟨_, _, rfl⟩ := createBegin_ok hs; exact FInvH.upd hf _ _ (by simp)
+  | createEnd a =>
+    obtain ⟨c, hc, _, rfl⟩ := createEnd_ok hs
+    have := (hi.hU c.h (hi.sC c hc).2.1).1
+    exact FInvH.upd hf _ _ (by simp [this])
+  | start t => obtain ⟨_, _, _, _, _, _, _, _, _, rfl⟩ := start_ok hs; exact hf
+  | exit t c =>
+    obtain ⟨n, _, _, _, _, ⟨_, rfl⟩ | ⟨_, rfl⟩⟩ := exit_ok hs
+    · exact currentCore_FInv hf t n
+    · refine FInvH.upd (currentCore_FInv hf t n) _ _ ?_
+      intro hfr; exact currentCore_FInv hf t n _ hfr
+  | ret t => obtain ⟨_, _, rfl⟩ := ret_ok hs; exact hf
+  | threadEnd t =>
+    obtain ⟨hph, s1, hr, rfl⟩ := threadEnd_ok hs
+    have : FInv s1 := hf.runDtors_inv hi hk hph hr
+    exact this
+  | ref a h =>
+    obtain ⟨_, _, _, hfr, rfl⟩ := ref_ok hs
+    exact FInvH.upd hf _ _ (by simp [hfr])
+  | unref a h =>
+    obtain ⟨_, _, _, hu⟩ := unref_ok hs
+    obtain ⟨hfr, ⟨hc, rfl⟩ | ⟨_, rfl⟩⟩ := unrefCore_ok hu
+    · refine FInvH.upd hf _ _ ?_
+      intro _
+      have h1 := hi.hR _ hfr
+      have hp' : 0 < (s.hdl h).userRefs := hp
+      simp only [holders, unrefFreesWhenOldIs] at h1 hc
+      by_cases htr : (s.hdl h).threadRef = true <;> simp [htr] at h1 <;> simp [decd, htr] <;> omega
+    · refine FInvH.upd hf _ _ ?_
+      simp only [decd]; simp [hfr]
+  | join a h =>
+    obtain ⟨_, _, _, hfr, ⟨_, rfl⟩ | ⟨_, _, _, rfl⟩⟩ := join_ok hs
+    · exact hf
+    · exact FInvH.upd hf _ _ (by simp [hfr])
+  | current t => obtain ⟨n, _, _, _, rfl⟩ := current_ok hs; exact currentCore_FInv hf t n
+  | localNew a n => obtain ⟨_, rfl⟩ := localNew_ok hs; exact hf
+  | localFree a k => obtain ⟨_, _, _, _, rfl⟩ := localFree_ok hs; exact hf
+  | keyCreate t k => obtain ⟨_, _, _, _, _, rfl⟩ := keyCreate_ok hs; exact hf
+  | keyCas t k => obtain ⟨n, _, _, ⟨_, rfl⟩ | ⟨_, rfl⟩⟩ := keyCas_ok hs <;> exact hf
+  | setLocal t k v => obtain ⟨n, _, _, _, _, _, rfl⟩ := setLocal_ok hs; exact hf
+  | replaceLocal t k v => obtain ⟨n, _, _, _, _, _, rfl⟩ := replaceLocal_ok hs; exact hf
+  | getLocal t k => obtain ⟨n, _, _, _, _, _, rfl⟩ := getLocal_ok hs; exact hf
+
+theorem DReach.inv {s : State} (h : DReach s) : KInv s ∧ HInv s ∧ FInv s := by
+  induction h with
+  | init => exact ⟨KInv.init, HInv.init, FInv.init⟩
+  | step e _ hp hs ih => exact ⟨ih.1.step hs, ih.2.1.step ih.1 hs, ih.2.2.step ih.2.1 ih.1 hp hs⟩
+
+theorem resolve_no_uaf (s : State) (k h : Nat) : resolve s k ≠ .error (.useAfterFree h) := by
+  intro hs; unfold resolve at hs
+  split at hs
+  · cases hs
+  · split at hs <;> cases hs
+
+theorem unrefCore_err {s : State} {h : Nat} {own : Bool} {e : Err} (hs : unrefCore s h own = .error e) :
+    e = .useAfterFree h ∧ (s.hdl h).freed = true := by
+  unfold unrefCore at hs
+  split at hs
+  · rename_i hf; injection hs with hs; exact ⟨hs.symm, hf⟩
+  · simp only at hs; split at hs <;> cases hs
+
+theorem dtorOne_no_err {s : State} {t n : Nat} (hf : FInv s) (hi : HInv s) : ∀ e, dtorOne t s n ≠ .error e := by
+  intro e hs
+  unfold dtorOne at hs
+  split at hs
+  · rename_i hd
+    simp only at hs
+    split at hs
+    · rename_i ho
+      obtain ⟨_, hfr⟩ := unrefCore_err hs
+      simp only at hfr
+      have := (hi.lT t n ho hd.2.2).2.1
+      rw [hf.alive (.inr this)] at hfr; cases hfr
+    · cases hs
+  · cases hs
+
+theorem runDtors_no_err {t : Nat} : ∀ {l : List Nat} {s : State}, FInv s → HInv s → KInv s → (s.thr t).phase = .finished →
+    ∀ e, runDtors t s l ≠ .error e
+  | [], s, _, _, _, _, e, hs => by unfold runDtors at hs; cases hs
+  | n :: r, s, hf, hi, hk, hp, e, hs => by
+    unfold runDtors at hs
+    split at hs
+    · rename_i e' h1; exact dtorOne_no_err hf hi e' h1
+    · rename_i s1 h1
+      exact runDtors_no_err (hf.dtorOne_inv hi h1) (hi.dtorOne_inv hk hp h1) (hk.dtorOne h1)
+        (by rw [(dtorOne_thr h1).1]; exact hp) e hs
+
+/-- `no_use_after_free`, core: in a state reached by a disciplined history a permitted event never
+    reads or writes a freed `PUThread` block -/
+theorem step_no_uaf {s : State} {e : Ev} (hf : FInv s) (hi : HInv s) (hk : KInv s) (hp : Permitted s e) :
+    ∀ h, step s e ≠ .error (.useAfterFree h) := by
+  intro h hs
+  cases e with
+  | spawn => cases hs
+  | createBegin a j n =>
+    simp only [step, createBegin] at hs
+    split at hs
+    · cases hs
+    · split at hs <;> cases hs
+  | createEnd a =>
+    simp only [step, createEnd] at hs
+    split at hs
+    · cases hs
+    · split at hs <;> cases hs
+  | start t =>
+    simp only [step, start] at hs
+    split at hs
+    · cases hs
+    · rename_i hg
+      split at hs
+      · cases hs
+      · rename_i hd hh
+        split at hs
+        · rename_i e' hr; injection hs with hs; subst hs; exact resolve_no_uaf _ _ _ hr
+        · split at hs
+          · cases hs
+          · rename_i hspin
+            split at hs
+            · rename_i hfr
+              have hg' := not_or.mp hg
+              have hph : (s.thr t).phase = .created := by simpa using hg'.1
+              obtain ⟨h', h1, h2⟩ := hi.tC t hph
+              rw [hh] at h1; injection h1 with h1; subst h1
+              have hw : (s.hdl hd).written = true := by
+                cases hw : (s.hdl hd).written with
+                | true => rfl
+                | false => obtain ⟨c, hc, _⟩ := hi.hS hd (hi.tH t hd hh).1 hw; rw [hspin] at hc; cases hc
+              rw [hf.alive (.inr (h2 hw))] at hfr; cases hfr
+            · cases hs
+  | exit t c =>
+    simp only [step, exit] at hs
+    split at hs
+    · cases hs
+    · split at hs
+      · rename_i e' hr; injection hs with hs; subst hs; exact resolve_no_uaf _ _ _ hr
+      · rename_i n hr
+        split at hs
+        · rename_i hfr
+          have hpub := (resolve_ok hr).2
+          have := (currentCore_handle hi hk (t := t) hpub).2.1
+          rw [(currentCore_FInv hf t n).alive (.inr this)] at hfr; cases hfr
+        · split at hs <;> cases hs
+  | ret t =>
+    simp only [step, ret] at hs
+    split at hs <;> cases hs
+  | threadEnd t =>
+    simp only [step, threadEnd] at hs
+    split at hs
+    · cases hs
+    · rename_i hph
+      split at hs
+      · rename_i e' hr
+        exact runDtors_no_err hf hi hk (by simpa using hph) e' hr
+      · cases hs
+  | ref a h' =>
+    simp only [step, ref] at hs
+    split at hs
+    · cases hs
+    · split at hs
+      · rename_i hfr
+        have hp' : 0 < (s.hdl h').userRefs ∨ ((s.hdl h').thread = a ∧ (s.hdl h').threadRef = true) := hp
+        have : (s.hdl h').freed = false := hf.alive (hp'.imp id (·.2))
+        rw [this] at hfr; cases hfr
+      · cases hs
+  | unref a h' =>
+    simp only [step, unref] at hs
+    split at hs
+    · cases hs
+    · obtain ⟨_, hfr⟩ := unrefCore_err hs
+      have hp' : 0 < (s.hdl h').userRefs := hp
+      rw [hf.alive (.inl hp')] at hfr; cases hfr
+  | join a h' =>
+    simp only [step, join] at hs
+    split at hs
+    · cases hs
+    · split at hs
+      · rename_i hfr
+        have hp' : (0 < (s.hdl h').userRefs ∨ ((s.hdl h').thread = a ∧ (s.hdl h').threadRef = true)) ∧ (s.hdl h').joined = false := hp
+        have : (s.hdl h').freed = false := hf.alive (hp'.1.imp id (·.2))
+        rw [this] at hfr; cases hfr
+      · split at hs
+        · cases hs
+        · split at hs
+          · cases hs
+          · split at hs <;> cases hs
+  | current t =>
+    simp only [step, current] at hs
+    split at hs
+    · cases hs
+    · split at hs
+      · rename_i e' hr; injection hs with hs; subst hs; exact resolve_no_uaf _ _ _ hr
+      · cases hs
+  | localNew a n =>
+    simp only [step, localNew] at hs
+    split at hs <;> cases hs
+  | localFree a k =>
+    simp only [step, localFree] at hs
+    split at hs
+    · cases hs
+    · split at hs <;> cases hs
+  | keyCreate t k =>
+    simp only [step, keyCreate] at hs
+    split at hs
+    · cases hs
+    · split at hs
+      · cases hs
+      · split at hs <;> cases hs
+  | keyCas t k =>
+    simp only [step, keyCas] at hs
+    split at hs
+    · cases hs
+    · split at hs
+      · cases hs
+      · split at hs
+        · cases hs
+        · split at hs <;> cases hs
+  | setLocal t k v =>
+    simp only [step, setLocal] at hs
+    split at hs
+    · cases hs
+    · split at hs
+      · rename_i e' hr; injection hs with hs; subst hs; exact resolve_no_uaf _ _ _ hr
+      · cases hs
+  | replaceLocal t k v =>
+    simp only [step, replaceLocal] at hs
+    split at hs
+    · cases hs
+    · split at hs
+      · rename_i e' hr; injection hs with hs; subst hs; exact resolve_no_uaf _ _ _ hr
+      · cases hs
+  | getLocal t k =>
+    simp only [step, getLocal] at hs
+    split at hs
+    · cases hs
+    · split at hs
+      · rename_i e' hr; injection hs with hs; subst hs; exact resolve_no_uaf _ _ _ hr
+      · cases hs
+
+/-! ## what thread termination does to cells and to the notifier log -/
+
+/-- the notifier call owed for native key `n` at the end of thread `t` -/
+def owed (s : State) (t n : Nat) : Option (Nat × Nat × Nat) :=
+  if dtorDue s t n then some (t, (s.nkey n).owner, s.tls t n) else none
+
+theorem unrefCore_frame {s s' : State} {h : Nat} {own : Bool} (hs : unrefCore s h own = .ok s') :
+    s'.nkey = s.nkey ∧ s'.key = s.key ∧ s'.nN = s.nN ∧ s'.tls = s.tls ∧ s'.dtorLog = s.dtorLog ∧ s'.nK = s.nK := by
+  obtain ⟨_, ⟨_, rfl⟩ | ⟨_, rfl⟩⟩ := unrefCore_ok hs <;> exact ⟨rfl, rfl, rfl, rfl, rfl, rfl⟩
+
+theorem dtorOne_frame {s s' : State} {t n : Nat} (hs : dtorOne t s n = .ok s') :
+    s'.nkey = s.nkey ∧ s'.key = s.key ∧ s'.nN = s.nN ∧ s'.nK = s.nK ∧
+    s'.tls = (if dtorDue s t n then upd2 s.tls t n 0 else s.tls) ∧
+    s'.dtorLog = s.dtorLog ++ (owed s t n).toList := by
+  rcases dtorOne_ok hs with ⟨hd, rfl⟩ | ⟨hd, _, rfl⟩ | ⟨hd, _, hu⟩
+  · simp [owed, hd]
+  · simp [owed, hd, cleared]
+  · obtain ⟨e1, e2, e3, e4, e5, e6⟩ := unrefCore_frame hu
+    rw [e1, e2, e3, e4, e5, e6]; simp [owed, hd, cleared]
+
+theorem filterMap_congr' {α β : Type} {f g : α → Option β} : ∀ {l : List α}, (∀ a, a ∈ l → f a = g a) → l.filterMap f = l.filterMap g
+  | [], _ => rfl
+  | a :: r, h => by
+    rw [List.filterMap_cons, List.filterMap_cons, h a (by simp), filterMap_congr' (fun b hb => h b (by simp [hb]))]
+
+theorem runDtors_frame {t : Nat} : ∀ {l : List Nat} {s s' : State}, l.Nodup → runDtors t s l = .ok s' →
+    s'.nkey = s.nkey ∧ s'.key = s.key ∧ s'.nN = s.nN ∧ s'.nK = s.nK ∧
+    (∀ t' n', s'.tls t' n' = if t' = t ∧ n' ∈ l ∧ dtorDue s t n' then 0 else s.tls t' n') ∧
+    s'.dtorLog = s.dtorLog ++ l.filterMap (owed s t)
+  | [], s, s', _, hs => by unfold runDtors at hs; injection hs with hs; subst hs; simp
+  | n :: r, s, s', hnd, hs => by
+    obtain ⟨s1, h1, h2⟩ := runDtors_cons_ok hs
+    obtain ⟨a1, a2, a3, a4, a5, a6⟩ := dtorOne_frame h1
+    have hnr : n ∉ r := (List.nodup_cons.mp hnd).1
+    obtain ⟨b1, b2, b3, b4, b5, b6⟩ := runDtors_frame (List.nodup_cons.mp hnd).2 h2
+    -- what is due later is not disturbed by the destructor of `n`
+    have due_eq : ∀ m, m ≠ n → (dtorDue s1 t m ↔ dtorDue s t m) := by
+      intro m hm; unfold dtorDue; rw [a1, a5]
+      split
+      · rw [upd2_ne _ _ (by simp [hm])]
+      · rfl
+    have owed_eq : ∀ m, m ∈ r → owed s1 t m = owed s t m := by
+      intro m hm
+      have hmn : m ≠ n := fun e => hnr (e ▸ hm)
+      unfold owed
+      rw [a1, a5]
+      have := due_eq m hmn
+      by_cases d : dtorDue s t m
+      · rw [if_pos d, if_pos (this.mpr d)]
+        split
+        · rw [upd2_ne _ _ (by simp [hmn])]
+        · rfl
+      · rw [if_neg d, if_neg (fun x => d (this.mp x))]
+    have tls1 : ∀ t' m, m ≠ n → s1.tls t' m = s.tls t' m := by
+      intro t' m hm; rw [a5]; split
+      · rw [upd2_ne _ _ (by simp [hm])]
+      · rfl
+    refine ⟨b1.trans a1, b2.trans a2, b3.trans a3, b4.trans a4, ?_, ?_⟩
+    · intro t' n'
+      rw [b5]
+      by_cases hn : n' = n
+      · subst hn
+        rw [a5]
+        by_cases d : dtorDue s t n'
+        · by_cases ht : t' = t
+          · subst ht; simp [d, hnr]
+          · simp [d, ht, upd2_ne]
+        · simp [d, hnr]
+      · rw [tls1 t' n' hn]
+        have := due_eq n' hn
+        by_cases d : dtorDue s t n'
+        · simp [d, this.mpr d, hn]
+        · have d1 : ¬ dtorDue s1 t n' := fun x => d (this.mp x)
+          simp [d, d1]
+    · rw [b6, a6, List.append_assoc]
+      congr 1
+      rw [List.filterMap_cons]
+      have : List.filterMap (owed s1 t) r = List.filterMap (owed s t) r := filterMap_congr' owed_eq
+      rw [this]
+      cases owed s t n <;> simp
+
+theorem nodup_filterMap {α β : Type} {f : α → Option β} : ∀ {l : List α}, l.Nodup →
+    (∀ a b c, a ∈ l → b ∈ l → f a = some c → f b = some c → a = b) → (l.filterMap f).Nodup
+  | [], _, _ => by simp
+  | a :: r, hnd, hinj => by
+    have ih := nodup_filterMap (f := f) (List.nodup_cons.mp hnd).2
+      (fun x y c hx hy => hinj x y c (by simp [hx]) (by simp [hy]))
+    rw [List.filterMap_cons]
+    cases hfa : f a with
+    | none => exact ih
+    | some c =>
+      simp only
+      refine List.nodup_cons.mpr ⟨?_, ih⟩
+      intro hm
+      obtain ⟨b, hb, hfb⟩ := List.mem_filterMap.mp hm
+      have := hinj a b c (by simp) (by simp [hb]) hfa hfb
+      subst this
+      exact (List.nodup_cons.mp hnd).1 hb
+
+/-- the cell under key `k` is the cell under `k`'s published native key -/
+theorem valueOf_pub {s : State} {t k n : Nat} (hp : (s.key k).published = some n) : valueOf s t k = s.tls t n := by
+  simp [valueOf, hp]
+
+/-- `destructor_exactly_once`, thread end: the notifier calls made by `threadEnd t` -/
+theorem threadEnd_dtor {s s' : State} {t : Nat} (hk : KInv s) (hs : threadEnd s t = .ok s') :
+    ∃ L, s'.dtorLog = s.dtorLog ++ L ∧ L.Nodup ∧
+      (∀ t' k v, (t', k, v) ∈ L ↔ t' = t ∧ (s.key k).notifier = true ∧ v ≠ 0 ∧ valueOf s t k = v) ∧
+      (∀ k, (s.key k).notifier = true → valueOf s' t k = 0) := by
+  obtain ⟨_, s1, hr, rfl⟩ := threadEnd_ok hs
+  obtain ⟨a1, a2, a3, a4, a5, a6⟩ := runDtors_frame (List.nodup_range) hr
+  -- a destructor is due exactly for the published native key of a key with a notifier and a non-NULL value
+  have due_iff : ∀ n, dtorDue s t n ↔ s.tls t n ≠ 0 ∧ (s.key (s.nkey n).owner).notifier = true := by
+    intro n; unfold dtorDue
+    constructor
+    · rintro ⟨_, h2, h3⟩; exact ⟨h3, by rw [← hk.kD n (hk.val_lt h3)]; exact h2⟩
+    · rintro ⟨h3, h2⟩
+      have hp := hk.kV t n h3
+      exact ⟨(hk.kP _ _ hp).2.2.1, by rw [hk.kD n (hk.val_lt h3)]; exact h2, h3⟩
+  refine ⟨(List.range s.nN).filterMap (owed s t), a6, ?_, ?_, ?_⟩
+  · refine nodup_filterMap List.nodup_range ?_
+    intro a b c _ _ ha hb
+    unfold owed at ha hb
+    split at ha
+    · rename_i da
+      split at hb
+      · rename_i db
+        injection ha with ha; injection hb with hb
+        have e := ha.trans hb.symm
+        injection e with _ e; injection e with e _
+        have pa := hk.kV t a da.2.2; have pb := hk.kV t b db.2.2
+        rw [e] at pa; rw [pa] at pb; injection pb
+      · cases hb
+    · cases ha
+  · intro t' k v
+    rw [List.mem_filterMap]
+    constructor
+    · rintro ⟨n, _, ho⟩
+      unfold owed at ho
+      split at ho
+      · rename_i d
+        injection ho with ho; injection ho with e1 ho; injection ho with e2 e3
+        have hd := (due_iff n).mp d
+        have hp := hk.kV t n hd.1
+        subst e1 e2 e3
+        exact ⟨rfl, hd.2, hd.1, valueOf_pub hp⟩
+      · cases ho
+    · rintro ⟨rfl, hn, hv, hval⟩
+      cases hp : (s.key k).published with
+      | none => simp [valueOf, hp] at hval; exact absurd hval.symm hv
+      | some n =>
+        rw [valueOf_pub hp] at hval
+        have hown := (hk.kP k n hp).2.1
+        have d : dtorDue s t' n := (due_iff n).mpr ⟨by rw [hval]; exact hv, by rw [hown]; exact hn⟩
+        exact ⟨n, List.mem_range.mpr (hk.kP k n hp).1, by simp [owed, d, hown, hval]⟩
+  · intro k hn
+    simp only [valueOf]
+    rw [a2]
+    cases hp : (s.key k).published with
+    | none => rfl
+    | some n =>
+      simp only
+      rw [a5]
+      by_cases hv : s.tls t n = 0
+      · simp [hv]
+      · have hown := (hk.kP k n hp).2.1
+        have d : dtorDue s t n := (due_iff n).mpr ⟨hv, by rw [hown]; exact hn⟩
+        simp [d, List.mem_range, (hk.kP k n hp).1]
+
+/-! ## TLS cells at the level of `PUThreadKey`s -/
+
+/-- a store through key `k` changes the cell `(t, k)` and no other -/
+theorem valueOf_store {s : State} (hk : KInv s) {t k n v : Nat} (hp : (s.key k).published = some n)
+    (d : List (Nat × Nat × Nat)) :
+    valueOf { s with dtorLog := d, tls := upd2 s.tls t n v } t k = v ∧
+    ∀ t' k', ¬ (t' = t ∧ k' = k) → valueOf { s with dtorLog := d, tls := upd2 s.tls t n v } t' k' = valueOf s t' k' := by
+  constructor
+  · simp [valueOf, hp]
+  · intro t' k' hne
+    simp only [valueOf]
+    cases hp' : (s.key k').published with
+    | none => rfl
+    | some m =>
+      simp only
+      have : ¬ (t' = t ∧ m = n) := by
+        rintro ⟨rfl, rfl⟩
+        have a := (hk.kP k m hp).2.1; have b := (hk.kP k' m hp').2.1
+        exact hne ⟨rfl, b.symm.trans a⟩
+      rw [upd2_ne _ _ this]
+
+theorem currentCore_frameK (s : State) (t n : Nat) :
+    (currentCore s t n).1.key = s.key ∧ (currentCore s t n).1.dtorLog = s.dtorLog ∧ (currentCore s t n).1.freeLog = s.freeLog ∧
+    (∀ t' m, m ≠ n → (currentCore s t n).1.tls t' m = s.tls t' m) := by
+  unfold currentCore; split
+  · exact ⟨rfl, rfl, rfl, fun _ _ _ => rfl⟩
+  · refine ⟨rfl, rfl, rfl, fun t' m hm => ?_⟩
+    simp only; rw [upd2_ne _ _ (by simp [hm])]
+
+/-- the native key of a user key is not the library key's -/
+theorem KInv.user_ne_lib {s : State} (hk : KInv s) {k n n0 : Nat} (hk0 : k ≠ 0) (hp : (s.key k).published = some n)
+    (hp0 : (s.key 0).published = some n0) : n ≠ n0 := by
+  intro e; subst e
+  have a := (hk.kP k n hp).2.1; have b := (hk.kP 0 n hp0).2.1
+  exact hk0 (a.symm.trans b)
+
+/-- `tls_independent`, frame: no event other than a store by `t` through `k` and the end of `t`
+    changes what `t` sees under the user key `k` -/
+theorem valueOf_frame {s s' : State} {e : Ev} (hk : KInv s) (hs : step s e = .ok s') {t k : Nat} (hk0 : k ≠ 0)
+    (h1 : ∀ v, e ≠ .setLocal t k v) (h2 : ∀ v, e ≠ .replaceLocal t k v) (h3 : e ≠ .threadEnd t) :
+    valueOf s' t k = valueOf s t k := by
+  -- a store into the library key's cell does not touch a user key's cell
+  have lib : ∀ (n0 : Nat) (tls' : Nat → Nat → Nat), (s.key 0).published = some n0 → (∀ t' m, m ≠ n0 → tls' t' m = s.tls t' m) →
+      (match (s.key k).published with | some n => tls' t n | none => 0) = valueOf s t k := by
+    intro n0 tls' hp0 htls
+    simp only [valueOf]
+    cases hp : (s.key k).published with
+    | none => rfl
+    | some n => simp only; exact htls t n (hk.user_ne_lib hk0 hp hp0)
+  cases e with
+  | spawn => have := spawn_ok hs; subst this; rfl
+  | createBegin a j n => obtain ⟨_, _, rfl⟩ := createBegin_ok hs; rfl
+  | createEnd a => obtain ⟨c, _, _, rfl⟩ := createEnd_ok hs; rfl
+  | start t' =>
+    obtain ⟨hd, n0, _, _, _, _, hp0, _, _, rfl⟩ := start_ok hs
+    exact lib n0 _ hp0 (fun t'' m hm => by simp only; rw [upd2_ne _ _ (by simp [hm])])
+  | exit t' c =>
+    obtain ⟨n0, _, _, hp0, _, ⟨_, rfl⟩ | ⟨_, rfl⟩⟩ := exit_ok hs
+    · simp only [valueOf]; rw [(currentCore_frameK s t' n0).1]
+      exact lib n0 _ hp0 (currentCore_frameK s t' n0).2.2.2
+    · simp only [valueOf]; rw [(currentCore_frameK s t' n0).1]
+      exact lib n0 _ hp0 (currentCore_frameK s t' n0).2.2.2
+  | ret t' => obtain ⟨_, _, rfl⟩ := ret_ok hs; rfl
+  | threadEnd t' =>
+    obtain ⟨_, s1, hr, rfl⟩ := threadEnd_ok hs
+    obtain ⟨_, a2, _, _, a5, _⟩ := runDtors_frame (List.nodup_range) hr
+    have : t ≠ t' := by intro e; subst e; exact h3 rfl
+    simp only [valueOf]; rw [a2]
+    cases (s.key k).published with
+    | none => rfl
+    | some n => simp only; rw [a5]; simp [this]
+  | ref a h => obtain ⟨_, _, _, _, rfl⟩ := ref_ok hs; rfl
+  | unref a h =>
+    obtain ⟨_, _, _, hu⟩ := unref_ok hs
+    obtain ⟨_, e2, _, e4, _, _⟩ := unrefCore_frame hu
+    simp only [valueOf]; rw [e2, e4]
+  | join a h => obtain ⟨_, _, _, _, ⟨_, rfl⟩ | ⟨_, _, _, rfl⟩⟩ := join_ok hs <;> rfl
+  | current t' =>
+    obtain ⟨n0, _, _, hp0, rfl⟩ := current_ok hs
+    simp only [valueOf]; rw [(currentCore_frameK s t' n0).1]
+    exact lib n0 _ hp0 (currentCore_frameK s t' n0).2.2.2
+  | localNew a nf =>
+    obtain ⟨_, rfl⟩ := localNew_ok hs
+    simp only [valueOf]
+    by_cases e : k = s.nK
+    · subst e; have := hk.kB s.nK (Nat.le_refl _); simp [this]
+    · rw [upd_ne _ _ e]
+  | localFree a k' =>
+    obtain ⟨_, _, _, _, rfl⟩ := localFree_ok hs
+    simp only [valueOf]
+    by_cases e : k = k'
+    · subst e; simp
+    · rw [upd_ne _ _ e]
+  | keyCreate t' k' => obtain ⟨_, _, _, _, _, rfl⟩ := keyCreate_ok hs; rfl
+  | keyCas t' k' =>
+    obtain ⟨n, hpd, _, ⟨hpub, rfl⟩ | ⟨_, rfl⟩⟩ := keyCas_ok hs
+    · simp only [valueOf]
+      by_cases e : k = k'
+      · subst e
+        simp [hpub]
+        -- a native key that is not yet published holds no value
+        apply Classical.byContradiction; intro hv
+        have := hk.kV t n hv
+        rw [(hk.kE t' k n hpd).2.1, hpub] at this; cases this
+      · rw [upd_ne _ _ e]
+    · simp only [valueOf]
+      by_cases e : k = k'
+      · subst e; simp
+      · rw [upd_ne _ _ e]
+  | setLocal t' k' v =>
+    obtain ⟨n, _, _, _, _, hp, rfl⟩ := setLocal_ok hs
+    exact (valueOf_store hk hp _).2 t k (by rintro ⟨rfl, rfl⟩; exact h1 v rfl)
+  | replaceLocal t' k' v =>
+    obtain ⟨n, _, _, _, _, hp, rfl⟩ := replaceLocal_ok hs
+    exact (valueOf_store hk hp _).2 t k (by rintro ⟨rfl, rfl⟩; exact h2 v rfl)
+  | getLocal t' k' => obtain ⟨n, _, _, _, _, _, rfl⟩ := getLocal_ok hs; rfl
+
+/-- only `replace_local` and thread termination call notifiers -/
+theorem dtorLog_frame {s s' : State} {e : Ev} (hs : step s e = .ok s')
+    (h1 : ∀ t k v, e ≠ .replaceLocal t k v) (h2 : ∀ t, e ≠ .threadEnd t) (h3 : ∀ t k v, e ≠ .setLocal t k v) :
+    s'.dtorLog = s.dtorLog := by
+  cases e with
+  | spawn => have := spawn_ok hs; subst this; rfl
+  | createBegin a j n => obtain ⟨_, _, rfl⟩ := createBegin_ok hs; rfl
+  | createEnd a => obtain ⟨c, _, _, rfl⟩ := createEnd_ok hs; rfl
+  | start t' => obtain ⟨hd, n0, _, _, _, _, hp0, _, _, rfl⟩ := start_ok hs; rfl
+  | exit t' c =>
+    obtain ⟨n0, _, _, hp0, _, ⟨_, rfl⟩ | ⟨_, rfl⟩⟩ := exit_ok hs
+    · exact (currentCore_frameK s t' n0).2.1
+    · exact (currentCore_frameK s t' n0).2.1
+  | ret t' => obtain ⟨_, _, rfl⟩ := ret_ok hs; rfl
+  | threadEnd t' => exact absurd rfl (h2 t')
+  | ref a h => obtain ⟨_, _, _, _, rfl⟩ := ref_ok hs; rfl
+  | unref a h => obtain ⟨_, _, _, hu⟩ := unref_ok hs; exact (unrefCore_frame hu).2.2.2.2.1
+  | join a h => obtain ⟨_, _, _, _, ⟨_, rfl⟩ | ⟨_, _, _, rfl⟩⟩ := join_ok hs <;> rfl
+  | current t' => obtain ⟨n0, _, _, hp0, rfl⟩ := current_ok hs; exact (currentCore_frameK s t' n0).2.1
+  | localNew a nf => obtain ⟨_, rfl⟩ := localNew_ok hs; rfl
+  | localFree a k' => obtain ⟨_, _, _, _, rfl⟩ := localFree_ok hs; rfl
+  | keyCreate t' k' => obtain ⟨_, _, _, _, _, rfl⟩ := keyCreate_ok hs; rfl
+  | keyCas t' k' => obtain ⟨n, hpd, _, ⟨hpub, rfl⟩ | ⟨_, rfl⟩⟩ := keyCas_ok hs <;> rfl
+  | setLocal t' k' v => exact absurd rfl (h3 t' k' v)
+  | replaceLocal t' k' v => exact absurd rfl (h1 t' k' v)
+  | getLocal t' k' => obtain ⟨n, _, _, _, _, _, rfl⟩ := getLocal_ok hs; rfl
+
+end PV.UThread
